@@ -132,6 +132,7 @@ tokenprint(const struct token *t)
 	case TNUMBER:
 	case TCHARCONST:
 	case TSTRINGLIT:
+	case TOTHER:
 		str = t->lit;
 		break;
 	case TNEWLINE:
